@@ -151,6 +151,44 @@ class FilteredUnit(Unit):
         return ax, kept, info
 
 
+class ClassShapeUnit(Unit):
+    """An assumption about a library base class is stated for a subclass of the repository that overrides only the methods
+    under contract.  A further method or class attribute, or another base, is outside the assumption: undecided."""
+
+    def __init__(self, relpath, cls, known, bases, why):
+        self.relpath, self.cls, self.known, self.bases, self.why = relpath, cls, set(known), list(bases), why
+        self.label = "class-shape:%s:%s" % (relpath, cls)
+
+    def generate(self):
+        import ast
+        tree, _ = extract.parse_module(self.relpath)
+        cls = [n for n in tree.body if isinstance(n, ast.ClassDef) and n.name == self.cls]
+        if not cls:
+            raise Unsupported("class %s not found" % self.cls)
+        names = set()
+        for n in cls[-1].body:
+            if isinstance(n, (ast.FunctionDef, ast.AsyncFunctionDef, ast.ClassDef)):
+                names.add(n.name)
+            elif isinstance(n, (ast.Assign, ast.AnnAssign, ast.AugAssign)):
+                for t in (n.targets if isinstance(n, ast.Assign) else [n.target]):
+                    names.update(x.id for x in ast.walk(t) if isinstance(x, ast.Name))
+            elif isinstance(n, ast.Expr) and isinstance(n.value, ast.Constant):
+                continue        # docstring
+            elif isinstance(n, ast.Pass):
+                continue
+            else:
+                raise Unsupported("%s: class body statement %s" % (self.cls, type(n).__name__))
+        extra = sorted(names - self.known)
+        if extra:
+            raise Unsupported("%s defines %s, which %s does not cover" % (self.cls, ", ".join(extra), self.why))
+        bases = [ast.unparse(b) for b in cls[-1].bases]
+        if bases != self.bases or cls[-1].keywords or cls[-1].decorator_list:
+            raise Unsupported("%s has bases %s / decorators, %s is stated for %s" % (self.cls, bases, self.why, self.bases))
+        ob = Obligation("%s/overrides-only-methods-under-contract" % self.label, [], z3.BoolVal(True))
+        ob.external = {"ok": True, "seconds": 0.0, "backend": "ast", "output": "bases=%s members=%s" % (bases, sorted(names))}
+        return [], [ob], {"class": self.cls, "members": sorted(names)}
+
+
 class LemmaUnit(Unit):
     """Spec-level lemmas: named closed formulas to be proved valid."""
 
@@ -227,3 +265,41 @@ class LeanUnit(Unit):
         ob.external = {"ok": ok, "seconds": time.time() - t0, "backend": "lean 4 + Mathlib", "output": out,
                        "forbidden_tokens": bad}
         return [], [ob], {"lemma": self.label, "file": self.path, "theorems": self.theorems}
+
+
+class FrameUnit(Unit):
+    """frame condition of one real function, decided by pyvc.frame (a conservative effect analysis of its AST)"""
+
+    def __init__(self, relpath, qualname, roots, why, attr_roots=(), own_methods=(), summaries=None, module_roots=(),
+                 only_if_mentioned=False, interior_methods=(), pure_constructors=()):
+        self.interior_methods, self.pure_constructors = set(interior_methods), set(pure_constructors)
+        self.relpath, self.qualname, self.roots, self.why = relpath, qualname, set(roots), why
+        self.attr_roots, self.own_methods = set(attr_roots), set(own_methods)
+        self.summaries, self.module_roots = dict(summaries or {}), set(module_roots)
+        self.only_if_mentioned = only_if_mentioned
+        self.label = "frame:%s:%s" % (relpath, qualname)
+        self.extracted = None
+
+    def analyse(self):
+        from .frame import FrameAnalysis, mutable_default_params
+        ex = extract.load_function(self.relpath, self.qualname)
+        self.extracted = ex
+        roots = set(self.roots) | set(mutable_default_params(ex.node))
+        import ast
+        for d in ex.node.decorator_list:
+            if not (isinstance(d, ast.Name) and d.id in ("property", "staticmethod", "classmethod", "abstractmethod")):
+                raise Unsupported("decorator @%s may keep state between calls" % ast.unparse(d))
+        fa = FrameAnalysis(ex.node, roots, self.attr_roots, self.own_methods, self.summaries, self.module_roots,
+                           self.interior_methods, self.pure_constructors).run()
+        return ex, fa
+
+    def generate(self):
+        ex, fa = self.analyse()
+        if fa.unsupported and not fa.violations:
+            raise Unsupported("; ".join(str(f) for f in fa.unsupported[:3]))
+        ok = not fa.violations
+        name = "%s/modifies-nothing-reachable-from-%s" % (self.label, self.why)
+        ob = Obligation(name, [], z3.BoolVal(ok), line=(fa.violations[0].line if fa.violations else ex.lines[0]))
+        ob.external = {"ok": ok, "seconds": 0.0, "backend": "frame-analysis",
+                       "output": "; ".join(str(f) for f in fa.violations) or "no store, deletion or mutating call reaches a protected object"}
+        return [], [ob], {"function": ex.describe(), "mentions_of_protected_roots": fa.mentions}
